@@ -14,6 +14,7 @@ NOTE = ("Trusted: go/packages+go/ssa (x/tools v0.50.0), the symx interpreter/int
 
 claimed = {
  "C12": ("All six arithmetic relations of the statement are SMT-decided over the whole range n,w,p in [0,2^62] on the real GetRequiredWaitSlaveCount/GetFailoverQuorum/CheckFailoverQuorum (loop-free; the only bound is the word size).", "§7 C12"),
+ "C03": ("Lock layer: the real AcquireLock/ReleaseLock/handleSessionEvent of two zkDCS instances over one fake ZooKeeper, one process's operations interleaved at every ZooKeeper request with session expiry, new sessions, delivery of session events, whole operations of the other process and TTL expiry (3/4 environment actions, 2/3 operations): never true after a delivered session loss unless the znode is owned, release never removes a foreign lock (checked when the delete is applied). Daemon layer: no remote-mutating statement or protected coordination write without a lock confirmation in the same iteration, for every state handler and every pattern of lock answers. Lease-window, version-0 release race and post-refusal FailSwitchover are known findings.", "§7 C03"),
  "C04": ("One call of the real updateActiveNodes (with calcActiveNodes, calcActiveNodesChanges, semi-sync adjustments, eviction guard, SetActiveNodes) from an arbitrary membership/health situation of a master + 2 replicas (10 replica classes x semi-sync flag x old-list membership x master semi-sync state x both adjust orders), with (a)/(b) asserted as checkpoint invariants after every mutating statement or coordination write (crash at any point) and with one failing/lost-reply call; list content rules on every published value; SetRecovery delists before it marks. Known findings listed in KNOWN_FINDINGS.json are reported as such.", "§7 C04"),
  "C15": ("One operation of the real zkDCS data plane (create/set/get/delete/children incl. makePath, retry and path normalisation) from an arbitrary tree over 4 keys x 4 node kinds x 6 slash spellings against a fake ZooKeeper as reference tree, znode versions symbolic (solver-decided), plus buildFullPath over all byte strings up to length 7/10, retry-only-while-connected with 1/2 lost requests, and ephemeral lifetime across sessions. Mostly structural decisions (exhaustive re-execution), the solver decides the version arithmetic.", "§7 C15"),
  "C06": ("One manager iteration of the real stateManager request branch (approve/start/perform/fail-or-finish with the real appDCS bookkeeping) from an arbitrary pending request with symbolic run_count, attempt limit, timeout, initiation time and clock; the same iteration interleaved with the operator's abort and the real initiators (CliSwitch, IssueFailover) at every manager write to `switch`; two initiators racing; and the iteration with the whole real performSwitchover (success record implies recorded master = promoted node and writable). Abort/initiator races that the missing compare-and-set makes possible are listed as known findings.", "§7 C06"),
